@@ -1340,8 +1340,10 @@ impl Relation {
             .collect();
 
         if let (Some(constraint), false) = (constraint, version.is_empty()) {
-            let vc: VersionConstraint = constraint.to_string().parse().unwrap();
-            return Some((vc, version.parse().unwrap()));
+            // The parser accepts any run of '<', '>' and '=' as an operator ("><", "=>", ">") and any
+            // identifier as a version: only a known operator with a valid version is a constraint
+            let vc: VersionConstraint = constraint.to_string().parse().ok()?;
+            return Some((vc, version.parse().ok()?));
         } else {
             None
         }
